@@ -159,6 +159,12 @@ def nasty_vectors(n):
     out.append([1 + 0.25 * i for i in range(n)][::-1])
     out.append([0.3 * i for i in range(n)][::-1])
     out.append([-0.5 * i for i in range(n)])
+    # bools (an int subclass: exact-type tests treat them differently), with ties among them and mixed with ints / floats
+    out.append([bool(i % 2) for i in range(n)])
+    out.append([True] * n)
+    out.append([False] + [True] * (n - 1))
+    out.append(([True, 1.0, 2, 1] * n)[:n])
+    out.append(([1, True, 0.0, False] * n)[:n])
     # absorption: small distinct values next to a huge one collapse under +/- with the huge one
     out.append([1e18] + [float(n - i) for i in range(1, n)])
     out.append([float(i + 1) for i in range(n - 1)] + [1e18])
